@@ -187,6 +187,8 @@ class C19Check(Check):
         g = rng.fork("workload")
         nr = g.np("data")
         n = g.pick([4, 6, 9, 12])
+        if self.tier == "thorough" and g.chance(0.004):
+            n = g.pick([2049, 2100])  # buffers sized by the pool: behaviour must not change with the pool size
         d = g.pick([1, 2])
         classes = g.pick([[0, 1], [0, 1, 2]])
         lab = nr.randint(0, len(classes), n)
@@ -197,7 +199,7 @@ class C19Check(Check):
         flags = {"use_speed_up": g.chance(0.5), "enforce_unique_samples": g.chance(0.4), "ignore_partial_fit": g.chance(0.5)}
         sc = {"engine": "idxsim", "clf": clf, "clf_seed": g.randrange(0, 50), "classes": classes, "X": X.tolist(), "y": y, "w": w, "flags": flags}
         if g.chance(0.2):
-            sc["prefit"] = {"idx": sorted(g.sample(range(n), g.randint(1, n)))}
+            sc["prefit"] = {"idx": sorted(g.sample(range(n), g.randint(1, min(n, 60))))}
             sc["init_set_base"] = g.chance(0.5)
         elif g.chance(0.05):
             sc["init_set_base"] = True
@@ -207,10 +209,10 @@ class C19Check(Check):
         elif g.chance(0.6):
             # the caller announces only part of the kernel (possibly in several calls)
             for _ in range(g.pick([1, 2, 3])):
-                ops.append({"op": "precompute", "fit_idx": sorted(g.sample(range(n), g.randint(1, n))), "pred_idx": sorted(g.sample(range(n), g.randint(1, n))), "fit_params": g.pick(["all", "all", "labeled", "unlabeled"]), "pred_params": g.pick(["all", "all", "labeled", "unlabeled"])})
-        for _ in range(g.pick([3, 5, 8, 12, 18] + ([25, 25] if self.tier == "thorough" else []))):
+                ops.append({"op": "precompute", "fit_idx": sorted(g.sample(range(n), g.randint(1, min(n, 60)))), "pred_idx": sorted(g.sample(range(n), g.randint(1, min(n, 60)))), "fit_params": g.pick(["all", "all", "labeled", "unlabeled"]), "pred_params": g.pick(["all", "all", "labeled", "unlabeled"])})
+        for _ in range(g.pick([3, 5, 8, 12, 18] + ([25, 25] if self.tier == "thorough" else [])) if n < 100 else 4):
             r = g.random()
-            k = g.randint(1, max(1, n - 1))
+            k = g.randint(1, max(1, min(n - 1, 60)))
             idx = [g.randrange(n) for _ in range(k)] if g.chance(0.25) else g.sample(range(n), k)
             o = {"idx": idx}
             if g.chance(0.3):
@@ -229,7 +231,7 @@ class C19Check(Check):
                         o[key] = o[key][: len(o["idx"])]
             else:
                 kinds = ["predict_proba", "predict_proba", "predict"] + (["predict_freq"] if clf.startswith("pwc") else [])
-                o = {"op": g.pick(kinds), "idx": sorted(g.sample(range(n), g.randint(1, n)))}
+                o = {"op": g.pick(kinds), "idx": sorted(g.sample(range(n), g.randint(1, min(n, 60))))}
             ops.append(o)
         if not any(o["op"] == "precompute" for o in ops) and g.chance(0.5):
             ops.insert(g.randrange(len(ops) + 1), {"op": "precompute"})
